@@ -929,7 +929,8 @@ META = {
     "level": "proof",
     "technique": "exhaustive decision-table extraction from MIR discriminant "
                  "switches (relational variant dataflow), compared cell by "
-                 "cell with the documented matrix",
+                 "cell with the documented matrix; def-use check that no "
+                 "derived cross-kind PartialEq answer becomes a Seed boolean",
     "trusted_base": ["rustc MIR and callee resolution"],
     "assumptions": ["contexts that do not go through the listed reject-side "
                     "errors are invisible to R16.2"],
